@@ -56,8 +56,8 @@ PERTURB = {"MALLOC_PERTURB_": "85"}
 
 def plan(tier):
     if tier == "thorough":
-        return [{"variant": "plain", "workers": 12, "cases": 3000, "name": "plain", "env": PERTURB},
-                {"variant": "asan", "workers": 4, "cases": 300, "name": "asan"}]
+        return [{"variant": "plain", "workers": 12, "cases": 1800, "name": "plain", "env": PERTURB},
+                {"variant": "asan", "workers": 4, "cases": 180, "name": "asan"}]
     return [{"variant": "plain", "workers": 7, "cases": 300, "name": "plain", "env": PERTURB},
             {"variant": "asan", "workers": 1, "cases": 40, "name": "asan"}]
 
@@ -687,7 +687,7 @@ def run(ctx):
         while len(ls.program) < nsteps and not ls.dead:
             for nm in ls.live():
                 r = ls.ref[nm]
-                if any(abs(x) > 1e6 for x in r.v):
+                if any(not (abs(x) <= 1e6) for x in r.v):
                     ls.step("%s = %s" % (nm, splitc(rng, min(r.m, 3), min(r.n, 3), r.tc if r.tc != "i" else "d")[0]), "spmatrix:renew")
             x = rng.uniform(0, tot)
             for g, w in GENS:
